@@ -19,9 +19,13 @@ ASSUMPTIONS = [
     "'Complete' for a returned mesh means: no more unpaired directed edges than the uncancelled render of the same input (0 for "
     "the shapes used), all indices valid, and - when the hook trace shows that the index or walk phase did not reach its root - "
     "the same triangle/vertex counts as the uncancelled render (HYBRID output is schedule dependent, so counts alone are not used).",
-    "worker_progress is proved as: cancel => every worker's next loop-head step is the exit; every non-spinning step "
-    "decreases a natural-number measure; no non-exited worker is ever without an enabled step. Fairness of the OS scheduler "
-    "(spinning workers do not starve the one holding work) is assumed.",
+    "worker_progress is proved only partially (worker_progress_partial): once cancel or done is set the loop-head step is "
+    "rejected and the exit step enabled; a worker at the loop head, picking a task or walking up the tree always has an enabled "
+    "step; exited workers take no step. The global termination measure and the enabledness of the eval/split states are NOT "
+    "proved: termination without cancel rests on the replayed traces (every accepted uncancelled trace ends with the root "
+    "collected, all tasks popped, all workers out of their loops) and on the watchdog oracle. Fairness of the OS scheduler is assumed.",
+    "The dual walk is replayed through Pool.step for trees without singletons (simplex, hybrid); for DC and for "
+    "assignIndices only the per-branch counter protocol is checked.",
 ]
 
 KEY_LATE = "C11:no-cancel-check-after-assignIndices-or-walk"
@@ -108,6 +112,7 @@ def digest(lines, case):
     root = L = None
     wmap = {}
     toks, pend_push = [], {}
+    wtoks, wpend, wlevel = [], {}, {}
     phase = None
     reads, raise_clock = 0, None
     loops = {1: 0, 2: 0, 3: 0}
@@ -150,12 +155,16 @@ def digest(lines, case):
             if a == 1 and b == 1:
                 reads += 1      # end of WorkerPool::build: `if (settings.cancel.load())`
                 need_mesh_check = True
+            if (a == 2 or a == 3) and b == 1:
+                need_mesh_check = True   # mesh.cpp: `if (settings.cancel.load())` after assignIndices / after the walk
             continue
         if site == "cancel":
             # in free mode only main-thread raises are ordered; the synthetic loop read of the phase just begun comes after
             raise_clock = reads + (0 if ctl else 0)
             if phase == 1 and ctl:
                 toks.append("X")
+            if phase == 3 and ctl and alg != "dc":
+                wtoks.append("X")
             info["raise_phase"] = phase
             continue
         if site == "pool-announce":
@@ -188,6 +197,40 @@ def digest(lines, case):
                     complete[1] = True
             elif site == "pool-exit":
                 toks.append("x%d" % wi)
+        elif phase == 3 and site.startswith("dual-") and ctl and alg != "dc":
+            # the dual walk of a tree without singletons, in the vocabulary of Pool.step
+            if wi in wpend and site != "dual-push-local":
+                wtoks.append("u%d:%d:0" % (wi, wpend.pop(wi)))
+            if site == "dual-loop":
+                wtoks.append("l%d" % wi)
+            elif site == "dual-pop":
+                wtoks.append("p%d:%d" % (wi, cid))
+                if cid == root:
+                    wlevel[cid] = L
+                if a == 1:
+                    wtoks.append("e%d:a" % wi)
+            elif site == "dual-push":
+                wpend[wi] = cid
+                wlevel[cid] = wlevel.get(par, 0) - 1
+            elif site == "dual-push-local":
+                wtoks.append("u%d:%d:1" % (wi, wpend.pop(wi)))
+            elif site == "dual-leaf":
+                wtoks.append("e%d:%s" % (wi, "f" if wlevel.get(cid, 0) == 0 else "t"))
+            elif site == "dual-exit":
+                wtoks.append("x%d" % wi)
+            if site == "dual-pending":
+                wtoks.append("c%d:%d" % (wi, a))
+                pend[3].setdefault(cid, []).append(a)
+                if a == 1 and cid == root:
+                    complete[3] = True
+            elif site == "dual-push":
+                kids3.setdefault(par, set()).add(cid)
+            elif site == "dual-leaf":
+                nonsingle.add(cid)
+                if cid == root:
+                    complete[3] = True
+            elif site == "dual-pop" and a == 1:
+                nonsingle.add(cid)
         elif site == "index-pending":
             pend[2].setdefault(cid, []).append(a)
             if a == 1 and cid == root:
@@ -211,6 +254,8 @@ def digest(lines, case):
     out = ["case %s alg %s n 8 workers %d L %d mode %s" % (case["id"], alg, workers, L or 0, case["mode"])]
     if ctl and toks and len(toks) <= 60000:
         out.append("pool " + " ".join(toks))
+    if ctl and wtoks and len(wtoks) <= 60000:
+        out.append("walkpool " + " ".join(wtoks))
     nbranch = 0
     if complete[2] and alg == "simplex":
         for p, flags in pend[2].items():
@@ -242,7 +287,7 @@ def digest(lines, case):
         out.append("render %d %d %d %s %s" % (n[1], n[2] if alg == "simplex" else 0, n[3],
                                               raise_clock if raise_clock is not None else "none", real_m))
     out.append("end")
-    info.update(L=L, complete=complete, branches=nbranch, pool_tokens=len(toks) if ctl else 0, loops=loops, raise_clock=raise_clock)
+    info.update(L=L, complete=complete, branches=nbranch, pool_tokens=(len(toks) + len(wtoks)) if ctl else 0, walk_tokens=len(wtoks), loops=loops, raise_clock=raise_clock)
     return out, info
 
 
@@ -351,6 +396,7 @@ def run(rep, tier, seed, replay=None):
         },
         "trace_refinement": {"traces": sum(1 for i in done if i.get("pool_tokens")), "events": sum(i["events"] for i in done),
                              "pool_tokens_replayed": sum(i.get("pool_tokens", 0) for i in done),
+                             "of_which_dual_walk_tokens": sum(i.get("walk_tokens", 0) for i in done),
                              "branch_protocols_checked": sum(i.get("branches", 0) for i in done),
                              "schedules": "controlled: seeded cooperative scheduler; free: seeded yields"},
         "samples": lines[:2] + lines[-2:],
